@@ -16,6 +16,15 @@ _forward_refs_lock = threading.RLock()
 __parsers__ = {}
 
 
+def _values_differ(a, b) -> bool:
+    # two input values given for one field (under two of its names): a comparison that cannot be made
+    # (a signalling NaN, an object whose __eq__ raises) is a conflict like any other difference
+    try:
+        return bool(a != b)
+    except Exception:   # noqa
+        return True
+
+
 class BaseParser:
     options_cls = Options
     parser_field_cls = ParserField
@@ -488,7 +497,7 @@ class BaseParser:
             if name in provided:
                 # another accepted name of a field already taken from the input:
                 # compare the input values (not the parsed one), before anything else, as field_first_parse does
-                if not options.ignore_alias_conflicts and provided[name] != value:
+                if not options.ignore_alias_conflicts and _values_differ(provided[name], value):
                     if name not in conflicted:
                         context.handle_error(exc.AliasConflictError(item=name, value=value))
                         conflicted.add(name)
@@ -580,7 +589,7 @@ class BaseParser:
                 k = str(k)
                 if k.lower() in self.case_insensitive_names:
                     k = k.lower()
-                    if k in _data and _data[k] != v and not context.options.ignore_alias_conflicts:
+                    if k in _data and _values_differ(_data[k], v) and not context.options.ignore_alias_conflicts:
                         # two letter-case variants of one name carry different values:
                         # an alias conflict (as data_first_parse reports it), not a silent overwrite
                         field = self.get_field(k)
@@ -619,7 +628,7 @@ class BaseParser:
                         if unprovided(value):
                             value = data[alias]
                         else:
-                            if data[alias] != value:
+                            if _values_differ(data[alias], value):
                                 context.handle_error(exc.AliasConflictError(item=name, value=data[alias]))
                                 conflict = True
                                 break
